@@ -245,6 +245,28 @@ def run_case(case):
                     res["violations"].append({"key": "routing_in_simulation:" + v["key"], "what": v["what"]})
             except Exception as e:  # noqa: BLE001
                 res["violations"].append({"key": pipeline.exc_key(e, "simulate"), "what": pipeline.exc_text(e)})
+        # the same routing through ONE params mapping edited in place between two calls of one
+        # solve_and_simulate function (every function must receive the values stored NOW, also in
+        # the backward induction; beta as stored now)
+        p6 = {k: (dict(v) if isinstance(v, dict) else v) for k, v in p5.items()}
+        p6["beta"] = round(params["beta"] * 0.83, 4)
+        s6 = ref.solve(p6)
+        if ref.supported(s5)[0] and ref.supported(s6)[0] and ref.states:
+            try:
+                fb, _ = pipeline.get_lcm_function(model, "solve_and_simulate")
+                init6 = gen.gen_initial_states(rng, ref, case.get("agents", 16))
+                pm = dsl.lcm_params(params)
+                fb(pm, initial_states=pipeline.jnp_states(init6), seed=3)
+                pipeline.update_params_in_place(pm, dsl.lcm_params(p6))
+                df6 = fb(pm, initial_states=pipeline.jnp_states(init6), seed=3)
+                vf6 = simcheck.vf_arrays(ref, p6, "ref", rng, refsol=s6)
+                j6 = simcheck.judge_panel(ref, p6, df6, init6, vf6)
+                add("solve_and_simulate_calls_with_params_edited_in_place")
+                add("simulated_rows_judged", j6["counters"].get("rows_in_scope", 0))
+                for v in j6["C02"] + j6["C03"]:
+                    res["violations"].append({"key": "routing_after_in_place_edit:" + v["key"], "what": "second call of one solve_and_simulate function with the same params mapping edited in place: " + v["what"]})
+            except Exception as e:  # noqa: BLE001
+                res["violations"].append({"key": pipeline.exc_key(e, "solve_and_simulate_in_place"), "what": pipeline.exc_text(e)})
     res["features"] = {**{k: bool(v) for k, v in realised.items()}, "collisions": bool(collisions), "multi_dep_stochastic": bool(multi)}
     res["sig"] = f"{dsl.shape_signature(desc)}#{pipeline.param_hash(params)}"
     res["nontrivial"] = bool(collisions or multi)
